@@ -2,6 +2,7 @@ import GV.Model.Handshake
 import GV.Model.HandshakeDelivery
 import GV.Proofs.Handshake
 import GV.Proofs.VersionTable
+import GV.Proofs.WellFormed
 import GV.Lib.VersionTable
 import GV.Gen.HandshakeSends
 /-!
@@ -221,6 +222,61 @@ theorem both_agree_generated
     (handshake GV.Lib.VersionTable.lk C S).2 = some (.finished v own) :=
   both_agree_fwd _ C S (generated_honest sc hsc kc mc hmc dmc psc qc C hC)
     (generated_honest ss hss ks ms hms dms pss qs S hS) v own peer h
+
+/-! ### the message-decoding stage in front of both handlers -/
+
+theorem encodeMap_all_wellFormed (lk : Lookup) (m : VMap) (h : Honest lk m) :
+    (encodeMap m).all (fun p => wellFormedOne p.2) = true := by
+  unfold encodeMap
+  rw [List.all_eq_true]
+  intro p hp
+  obtain ⟨e, he, rfl⟩ := List.mem_map.mp hp
+  exact GV.Proofs.WellFormed.encode_wellFormed e.2 (h e he).2
+
+/-- An honest initiator's proposal always passes message decoding: the responder's handler runs
+    on it (`handshake` may skip the decoding stage). -/
+theorem honest_proposal_decodes (lk : Lookup) (S C : VMap) (hC : Honest lk C) :
+    serverReceive lk S (encodeMap C) = some (serverNegotiate lk S (encodeMap C)) := by
+  unfold serverReceive
+  rw [encodeMap_all_wellFormed lk C hC]; rfl
+
+/-- Whatever an honest responder sends passes message decoding at the initiator: its handler runs. -/
+theorem honest_reply_decodes (lk : Lookup) (C S : VMap) (P : RawMap) (hS : Honest lk S) (m : SMsg)
+    (hm : (serverNegotiate lk S P).msg? = some m) : clientReceive lk C m = clientHandle lk C m := by
+  have hwf : m.wellFormed = true := by
+    cases hso : serverNegotiate lk S P with
+    | queryReply t =>
+      have ht : t = S := by
+        unfold serverNegotiate at hso
+        split at hso
+        · simp only [SOut.queryReply.injEq] at hso; exact hso.symm
+        · simp only at hso
+          split at hso
+          · cases hso
+          · split at hso
+            · cases hso
+            · split at hso
+              · cases hso
+              · split at hso
+                · cases hso
+                · split at hso <;> cases hso
+      rw [hso] at hm
+      simp only [SOut.msg?, Option.some.injEq] at hm
+      subst hm; subst ht
+      exact encodeMap_all_wellFormed lk _ hS
+    | refuse r =>
+      rw [hso] at hm
+      simp only [SOut.msg?, Option.some.injEq] at hm
+      subst hm; rfl
+    | accept v own peer =>
+      obtain ⟨_, _, _, hown, _⟩ := accept_is_max_common lk S P v own peer hso
+      rw [hso] at hm
+      simp only [SOut.msg?, Option.some.injEq] at hm
+      subst hm
+      exact GV.Proofs.WellFormed.encode_wellFormed own (hS (v, own) (lookupMap_some_mem hown)).2
+    | panic => rw [hso] at hm; simp [SOut.msg?] at hm
+  unfold clientReceive
+  simp [hwf]
 
 /-! ### independence of Go map iteration order (both maps) -/
 
